@@ -6,7 +6,7 @@ CFG = {'harness': 'det',
  'rule': 'valid PWB v2 payloads (0..79 channels, 0..511 samples, built from the layout of PwbV2Packet::try_from) and '
          'random payload bytes, split at chunk sizes 1,2,3,4,5,7,8,51..57,63..65,255,256,1023,1024,65535, L-1, L, L+1, '
          'L/2, L/3 into real chunks (CRCs by the crc32c crate); each in natural, reversed and random order; every '
-         'permutation up to 4 chunks (6 thorough) through model and implementation, 30 random orders for 5 and 6; every '
+         'permutation up to 5 chunks (6 thorough, 40 packets per size) through model and implementation, 30 random orders beyond; every '
          'single fault at every position of messages of 1..6 chunks and at 5 positions of a long one: drop, duplicate '
          '(same / other payload), other board, other chip, end-of-message toggled, resize +-1 (also of the final chunk: '
          'not a fault), id changed to a present id / n / 2^k / 65535, ids from 1, end-of-message everywhere / nowhere, '
